@@ -1077,7 +1077,10 @@ struct Lower {
     std::string sig = ret + " " + name + "(" + params + ")";
     protos += sig + ";\n";
     std::string b = "/* " + FD->getQualifiedNameAsString() + " : " + FD->getType().getAsString() + " @" + FD->getLocation().printToString(C.getSourceManager()) + " */\n";
+    // positional aliases of the parameters for the contract text (contracts must not depend on what the source calls its parameters)
+    { int k = 0; for (auto* P : FD->parameters()) b += "#define IPR_ARG" + std::to_string(k++) + " " + vn(P) + "\n"; }
     b += sig + "\nCONTRACT_" + name + "\n";
+    { int k = 0; for (auto* P : FD->parameters()) { (void)P; b += "#undef IPR_ARG" + std::to_string(k++) + "\n"; } }
     if (auto* CD = dyn_cast<CXXConstructorDecl>(FD)) {
       b += "{\n";
       bool clsSet = false;
